@@ -399,6 +399,7 @@ static bool check_tight(Case& c, const Fn* f, const CallResult& cr, const std::s
   // triage: the floating point box wrap_assign with 64 bits and wrapping overflow is the C17 finding (1ULL << 64 in the interval code)
   std::string crash_cls;
   if (pat.find("wrap_assign") != std::string::npos && what.compare(0, 15, "ppl_Double_Box_") == 0 && what.find(" w=64,") != std::string::npos && what.find(" o=0,") != std::string::npos) crash_cls = ":float-box+64-bit+wraps";
+  if (crash_cls.empty() && what.find("[bad_enum]") != std::string::npos) crash_cls = ":bad_enum";   // an out-of-range enum value that is not rejected (known finding) may also loop or die
   if (cr.crashed) { viol(c, "C20.code." + pat + ".crash" + crash_cls, what + " died in the isolated child (" + (cr.crash_sig > 0 ? "signal " + itos(cr.crash_sig) : "sanitizer report, exit status " + itos(-cr.crash_sig)) + ")"); return false; }
   if (cr.escaped) { viol(c, "C20.escape." + pat, what + " let an exception cross the language boundary: " + cr.exc); return false; }
   if (cr.r < 0) {
@@ -669,7 +670,10 @@ static StepOut step(Case& c, const Fn* f, const Mut& mut, Mode mode, long arm_k,
             viol(c, key, what + ": argument " + s.name + " after the call: C side {" + ops->dump(A.a[k].p).substr(0, 600) + "} twin {" + ops->dump(t.cp[k]).substr(0, 600) + "}");
             ok = false; break;
           }
-          if (pre[k] && !aliases_mutable) {
+          // shapes / boxes over floating point bounds: equality goes through a closure that rounds, so "the same value" is not decidable by it
+          const bool inexact_T = std::string(type_table[s.type].name).find("_double") != std::string::npos || std::string(type_table[s.type].name).find("Double_Box") != std::string::npos || std::string(type_table[s.type].name).find("_float") != std::string::npos;
+          if (pre[k] && !aliases_mutable && inexact_T) hx::count("const_check.skipped_inexact_T");
+          if (pre[k] && !aliases_mutable && !inexact_T) {
             if (!ops->equal(A.a[k].p, pre[k])) { viol(c, "C20.const_modified." + pat, what + ": const argument " + s.name + " changed value: before {" + dump_before[k].substr(0, 500) + "} after {" + ops->dump(A.a[k].p).substr(0, 500) + "}"); ok = false; break; }
             std::string after = ops->dump(A.a[k].p);
             if (!(F & (F_IO_STDOUT | F_IO_FILE_OUT | F_IO_STR)) && after != dump_before[k] && tdump_before[k] == dump_before[k] && ops->dump(t.cp[k]) == tdump_before[k]) {
